@@ -159,7 +159,7 @@ pub fn job_c14(out_dir: &str, tier: &str, seed: u64) {
     for i in 0..nrand {
         let input = match i % 4 { 0 => gen::random_doc(&mut rng, 14), 1 => gen::random_input(&mut rng, 3, 9), 2 => gen::foreign_doc(&mut rng, 10), _ => {
             let mut v = gen::random_doc(&mut rng, 8); v.extend_from_slice("é日本😀".as_bytes()); v.extend_from_slice(&gen::random_input(&mut rng, 1, 4)); v } };
-        let cutsets = gen::light_cut_sets(input.len(), &mut rng, 3);
+        let cutsets = if input.len() <= 70 { gen::cut_sets(input.len(), &mut rng, 0, 2) } else { gen::light_cut_sets(input.len(), &mut rng, 3) };
         let enc = if i % 5 == 4 { *rng.pick(&["windows-1252", "shift_jis", "euc-kr", "gb18030", "big5"]) } else { "utf-8" };
         let strict = rng.chance(1, 3);
         run_variants(&mut sh, "c14", &["C14"], &gen::merge(&all, &json!({"strict": strict, "enc": enc})), &input, &cutsets, "sim", &mut n);
